@@ -652,7 +652,9 @@ class History:
                 # release it resolved, and a handle of a generation an operator pruned legitimately fails)
                 kept = self.handles if writer.startswith('kept') and index % 2 == int(writer[-1]) and op['op'] == 'train' and op['release'] is not None else None
                 if writer.startswith('kept') and op['op'] == 'prune':
-                    self.handles = {k: v for k, v in self.handles.items() if k[:2] != (op['project'], op['release'])}
+                    # (every handle of the project: the prune may name its release implicitly - "the latest" - while the
+                    # handles were taken under its explicit name)
+                    self.handles = {k: v for k, v in self.handles.items() if k[0] != op['project']}
                 if kept is not None and (op['project'], op['release'], op['generation']) in kept:
                     self.ctx.count('kept_handle_operations')
                 result = prune(self.root, self.model, op) if op['op'] == 'prune' else perform(self.directory(self.root, writer), op, source, kept)
